@@ -123,6 +123,28 @@ theorem heapNormal_validName {h : Heap} (hn : HeapNormal h) (c : Nat) (x : NameA
   unfold Heap.validName
   exact heapNormal_setMgr hn c _ (NsMgr.validName_inv1 (mgrOf_inv1 hn c) _ _)
 
+/-- `ProvDocument.bundle(identifier)` -/
+theorem heapNormal_bundle {h : Heap} (hn : HeapNormal h) (d : Nat) (idArg : NameArg) : HeapNormal (h.bundle d idArg).1 := by
+  unfold Heap.bundle
+  split
+  · exact hn
+  · have h1 := heapNormal_validName hn d idArg
+    generalize h.validName d idArg = res at h1
+    obtain ⟨hh, vid⟩ := res
+    simp only at h1 ⊢
+    cases vid with
+    | none => exact h1
+    | some q =>
+      simp only
+      split
+      · exact h1
+      · have h2 := heapNormal_allocCont h1 false (some q) [] (some d)
+        generalize hh.allocCont false (some q) [] (some d) = al at h2
+        obtain ⟨h3, nb⟩ := al
+        simp only at h2 ⊢
+        unfold Heap.setCont
+        exact heapNormal_conts h2 _
+
 theorem heapNormal_newRecord {h : Heap} (hn : HeapNormal h) (c : Nat) (k : RecKind) (idArg : NameArg) (attrs : List AttrArg)
     (hc : isCollectionCall attrs = false) : HeapNormal (h.newRecord c k idArg attrs).1 := by
   unfold Heap.newRecord
@@ -280,6 +302,7 @@ theorem heapNormal_setTime {h : Heap} (hn : HeapNormal h) (r : Nat) (st en : Opt
 inductive HOp where
   | newDoc (nss : List Ns)
   | newBundle (id : Option QName) (nss : List Ns) (doc : Option Nat)
+  | bundle (d : Nat) (id : NameArg)
   | addNs (c : Nat) (n : Ns)
   | setDefault (c : Nat) (uri : String)
   | validName (c : Nat) (x : NameArg)
@@ -298,6 +321,7 @@ def HOp.ok : HOp → Prop
 def hstep (h : Heap) : HOp → Heap
   | .newDoc nss => (h.newDoc nss).1
   | .newBundle id nss doc => (h.allocCont false id nss doc).1
+  | .bundle d id => (h.bundle d id).1
   | .addNs c n => (h.addNs c n).1
   | .setDefault c u => h.setDefault c u
   | .validName c x => (h.validName c x).1
@@ -310,6 +334,7 @@ theorem hstep_normal {h : Heap} (hn : HeapNormal h) (op : HOp) (hop : op.ok) : H
   cases op with
   | newDoc nss => exact heapNormal_allocCont hn true none nss none
   | newBundle id nss doc => exact heapNormal_allocCont hn false id nss doc
+  | bundle d id => exact heapNormal_bundle hn d id
   | addNs c n =>
     unfold hstep Heap.addNs
     exact heapNormal_setMgr hn c _ (NsMgr.addNs_inv1 (mgrOf_inv1 hn c) n)
